@@ -33,12 +33,23 @@ import (
 	"sync"
 	"time"
 
+	"github.com/lianxiangcloud/linkchain/libs/common"
+	"github.com/lianxiangcloud/linkchain/libs/crypto"
+
 	"verifh/core"
 	"verifh/mbt"
 	"verifh/tlc"
 )
 
 func init() { core.Register("C10", run) }
+
+// emptyTrieProofIsFinding: the property says an absence proof verifies against a root
+// exactly when the key is absent from the content the root commits to. For the empty
+// trie Prove succeeds (emitting no node) but VerifyProof(emptyRoot, ..) returns an error
+// ("proof node 0 missing"): the true claim has no verifying proof. With this switch on,
+// that is reported under the key empty-trie-absence-proof/<kind> (the behaviour goes on);
+// with it off it is only counted (empty_trie_proofs_rejected).
+const emptyTrieProofIsFinding = true
 
 type modelMeta struct {
 	Keys  [][]int `json:"keys"`
@@ -90,6 +101,17 @@ func loadModel(name string, lines []string) (*model, error) {
 	}
 	if len(m.meta.Keys) == 0 {
 		return nil, fmt.Errorf("model %s exported no meta line", name)
+	}
+	// mbt.Load takes the first edge's source as the initial state
+	init := `{"from":{"c":[` + strings.TrimSuffix(strings.Repeat("0,", len(m.meta.Keys)), ",") + `],"sy":"none","rs":"nil"}`
+	for i, l := range edges {
+		if strings.HasPrefix(l, init) {
+			edges[0], edges[i] = edges[i], edges[0]
+			break
+		}
+		if i > 1000 {
+			return nil, fmt.Errorf("model %s: no edge from the initial state among the first lines", name)
+		}
 	}
 	g, err := mbt.Load(edges)
 	if err != nil {
@@ -143,6 +165,7 @@ type jobResult struct {
 	nontrivial int
 	sample     interface{}
 	viol       *core.Violation
+	notes      []*core.Violation
 	wall       float64
 }
 
@@ -206,6 +229,14 @@ func runJob(c *core.Ctx, j *job, tabs *tables) (res *jobResult) {
 	t0 := time.Now()
 	defer func() { res.wall = time.Since(t0).Seconds() }()
 	in := &inst{kind: j.kind, uni: j.uni, limit: j.limit, direct: j.direct, rng: rng, tab: tabs.get(j.kind, tabName)}
+	defer func() {
+		for _, n := range in.notes {
+			rec := j.describe()
+			rec["actions"] = []string{}
+			rec["mismatch"] = n.text
+			res.notes = append(res.notes, &core.Violation{Key: n.class + "/" + j.kind, Desc: fmt.Sprintf("%s trie: %s", j.kind, n.text), Record: rec})
+		}
+	}()
 	fail := func(m *mismatch, trace []string) {
 		key := m.class + "/" + j.kind
 		rec := j.describe()
@@ -278,14 +309,20 @@ func negativeControl(c *core.Ctx, m *model) {
 	rng := rand.New(rand.NewSource(c.Seed))
 	uni := universesFor(&m.meta)[0]
 	var seq []int
-	for _, w := range m.g.Walks(200, 30, rng) {
+	for _, w := range m.g.Walks(400, 30, rng) {
 		n := 0
 		for _, ei := range w {
 			if m.acts[ei].Op == "update" && m.acts[ei].V > 0 {
 				n++
 			}
 		}
-		if n >= 4 {
+		present := 0
+		for _, v := range m.states[m.g.Edges[w[len(w)-1]].To].C {
+			if v != 0 {
+				present++
+			}
+		}
+		if n >= 4 && present >= 2 {
 			seq = w
 			break
 		}
@@ -309,7 +346,7 @@ func negativeControl(c *core.Ctx, m *model) {
 		// (b) a wrong root in the table
 		tab := newRootTable()
 		last := m.states[m.g.Edges[seq[len(seq)-1]].To].C
-		tab.byContent[contentKey(last)] = emptyRoot
+		tab.byContent[contentKey(last)] = common.BytesToHash(crypto.Keccak256([]byte("not the root")))
 		in = &inst{kind: kind, uni: uni, limit: 1, rng: rng, tab: tab}
 		if _, mis := replay(in, m, seq, -1); mis == nil || !strings.HasPrefix(mis.class, "root-") {
 			c.Infra("vacuous binding: a wrong root in the content->root table was not noticed (%s trie, %v)", kind, mis)
@@ -322,24 +359,19 @@ func negativeControl(c *core.Ctx, m *model) {
 		if mis := in.checkProofs(in.t(), in.t().Hash(), wrong); mis == nil || !strings.HasPrefix(mis.class, "proof-") {
 			c.Infra("vacuous binding: a proof was accepted for a wrong claim (%s trie, %v)", kind, mis)
 		}
-		// (d) a wrong enumeration order
-		if len(uni.keys) > 1 {
-			present := []int{}
-			for i, v := range last {
-				if v != 0 {
-					present = append(present, i)
-				}
-			}
-			if len(present) >= 2 && last[present[0]] != last[present[1]] {
-				w2 := append([]int{}, last...)
-				w2[present[0]], w2[present[1]] = w2[present[1]], w2[present[0]]
-				if mis := in.checkIter(in.t(), in.t().Hash(), w2, nil, false); mis == nil {
-					c.Infra("vacuous binding: an iterator stream with swapped values was accepted (%s trie)", kind)
-				}
+		// (d) an iterator stream checked against a content with one value changed
+		w2 := append([]int{}, last...)
+		for i, v := range w2 {
+			if v != 0 {
+				w2[i] = v%len(m.meta.VLen) + 1
+				break
 			}
 		}
+		if mis := in.checkIter(in.t(), in.t().Hash(), w2, nil, false); mis == nil {
+			c.Infra("vacuous binding: an iterator stream was accepted for a content with a changed value (%s trie)", kind)
+		}
 	}
-	c.SetExtra("negative_controls", "corrupted expected content, wrong table root, wrong proof claim, swapped iterator values: all rejected")
+	c.SetExtra("negative_controls", "corrupted expected content, wrong table root, wrong proof claim, changed iterator value: all rejected (plain and secure)")
 }
 
 func run(c *core.Ctx) {
@@ -349,7 +381,6 @@ func run(c *core.Ctx) {
 	o.Assumptions = []string{
 		"key order of the iterator = order of the nibble paths with terminator (bytewise order; a key that is a proper prefix of other keys is enumerated after them, as libs/trie/iterator_test.go fixes it)",
 		"the verifier's proof node set is content addressed (every received node is stored under its own Keccak hash); VerifyProof itself does not re-hash",
-		"the empty trie has no proof: VerifyProof(emptyRoot, ..) fails closed (counted in empty_trie_proofs_rejected, not a violation)",
 		"Keccak-256 collision freedom is trusted (the specification uses the collapsed node itself as its hash)",
 		"Database.Dereference / Cap (not used by the node) are not exercised",
 	}
@@ -381,6 +412,9 @@ func run(c *core.Ctx) {
 			sem <- struct{}{}
 			defer func() { <-sem }()
 			r := runJob(c, j, tabs)
+			if os.Getenv("VERIF_C10_VERBOSE") != "" {
+				fmt.Fprintf(os.Stderr, "[%6.1fs] job %d %v/%s/%s done: %d steps in %.1fs\n", time.Since(c.Start).Seconds(), j.idx, j.describe()["model"], j.uni.name, j.kind, r.st.steps, r.wall)
+			}
 			jmu.Lock()
 			results[j.idx] = r
 			jmu.Unlock()
@@ -394,12 +428,45 @@ func run(c *core.Ctx) {
 			}
 		}
 	}
-	defer jwg.Wait()
 
-	type spec struct{ module, cfg string }
-	specs := []spec{{"MC_TrieQuick", "MC_TrieQuick.cfg"}, {"MC_TrieQuickB", "MC_TrieQuickB.cfg"}}
+	type spec struct {
+		module, cfg string
+		workers     int
+	}
+	specs := []spec{{"MC_TrieQuick", "MC_TrieQuick.cfg", 1}, {"MC_TrieQuickB", "MC_TrieQuickB.cfg", 1}}
 	if c.Thorough() {
-		specs = []spec{{"MC_TrieBig", "MC_TrieBig.cfg"}, {"MC_TrieBigB", "MC_TrieBigB.cfg"}, {"MC_TrieQuick", "MC_TrieQuick.cfg"}, {"MC_TrieQuickB", "MC_TrieQuickB.cfg"}}
+		// the big instances are on the critical path: several TLC workers (every PrintT line is
+		// written atomically; loadModel puts an edge that leaves the initial state first)
+		specs = append(specs, spec{"MC_TrieBig", "MC_TrieBig.cfg", 4}, spec{"MC_TrieBigB", "MC_TrieBigB.cfg", 2})
+	}
+	// schedule creates the replay jobs of one model as soon as its TLC run is through, so
+	// that replay overlaps with the longer TLC runs
+	schedule := func(mi int, m *model) {
+		m.tour = m.g.Tour(c.Pick(1200, 3000), rand.New(rand.NewSource(c.Seed+int64(mi))))
+		unis := universesFor(&m.meta)
+		var mj []*job
+		for ui, u := range unis {
+			for ki, kind := range []string{"plain", "secure"} {
+				if kind == "secure" && !c.Thorough() && ui%2 == 1 && ui < 5 {
+					continue // hashed keys: the nibble map hardly matters; value sizes and key lengths do
+				}
+				mj = append(mj, &job{m: m, uni: u, kind: kind, limit: limits[(ui+ki+mi)%len(limits)], direct: (ui+ki)%2 == 1, walks: c.Pick(12, 150)})
+			}
+		}
+		// quick: the jobs of a model share the tour (every edge is replayed on at least 2
+		// different instantiations); thorough: every job replays the whole tour of the
+		// small models and half of the big ones (every edge on at least 2)
+		for k, j := range mj {
+			if part == "free" {
+				break
+			}
+			if !c.Thorough() {
+				j.share, j.offset = len(mj)/2, k
+			} else if len(m.g.Edges) > 30000 {
+				j.share, j.offset = len(mj)/2, k
+			}
+			launch(j)
+		}
 	}
 	models := make([]*model, len(specs))
 	var wg sync.WaitGroup
@@ -407,7 +474,7 @@ func run(c *core.Ctx) {
 		wg.Add(1)
 		go func(i int, s spec) {
 			defer wg.Done()
-			res := c.TLC(tlc.Options{SpecDir: c.SpecDir("Trie"), Module: s.module, Config: s.cfg, Workers: 1, Timeout: c.MinutesT(4, 25)})
+			res := c.TLC(tlc.Options{SpecDir: c.SpecDir("Trie"), Module: s.module, Config: s.cfg, Workers: s.workers, Timeout: c.MinutesT(10, 22)})
 			if res == nil {
 				return
 			}
@@ -421,54 +488,28 @@ func run(c *core.Ctx) {
 				return
 			}
 			models[i] = m
+			if os.Getenv("VERIF_C10_VERBOSE") != "" {
+				fmt.Fprintf(os.Stderr, "[%6.1fs] %s: %s\n", time.Since(c.Start).Seconds(), s.module, res.Describe())
+			}
+			if i == 0 {
+				negativeControl(c, m)
+			}
+			schedule(i, m)
 		}(i, s)
 	}
 	wg.Wait()
-	for _, m := range models {
-		if m == nil {
-			return
-		}
-	}
+	jwg.Wait()
 	o.Exhaustive = true
 	modelInfo := map[string]interface{}{}
 	for _, m := range models {
+		if m == nil {
+			o.Exhaustive = false
+			continue
+		}
 		modelInfo[m.name] = map[string]interface{}{"keys": m.meta.Keys, "value_lengths": m.meta.VLen, "cache_limit": m.meta.Limit,
 			"projected_states": len(m.g.States), "projected_edges": len(m.g.Edges), "edges_by_action": m.g.ActionKinds("op")}
 	}
 	c.SetExtra("models", modelInfo)
-
-	negativeControl(c, models[0])
-
-	// ---- model-driven jobs ----
-	for mi, m := range models {
-		m.tour = m.g.Tour(c.Pick(1200, 3000), rand.New(rand.NewSource(c.Seed+int64(mi))))
-		unis := universesFor(&m.meta)
-		var mj []*job
-		for ui, u := range unis {
-			for ki, kind := range []string{"plain", "secure"} {
-				if kind == "secure" && !c.Thorough() && ui%2 == 1 && ui < 5 {
-					continue // hashed keys: the nibble map hardly matters; value sizes and key lengths do
-				}
-				mj = append(mj, &job{m: m, uni: u, kind: kind, limit: limits[(ui+ki+mi)%len(limits)], direct: (ui+ki)%2 == 1, walks: c.Pick(12, 300)})
-			}
-		}
-		// quick: the jobs of a model share the tour (every edge is replayed on at least
-		// `cover` different instantiations); thorough: every job replays the whole tour of
-		// the small models and a share of the big ones
-		cover := 2
-		for k, j := range mj {
-			if part == "free" {
-				break
-			}
-			if !c.Thorough() {
-				j.share, j.offset = len(mj)/cover, k
-			} else if len(m.g.Edges) > 30000 {
-				j.share, j.offset = len(mj)/4, k
-			}
-			launch(j)
-		}
-	}
-	jwg.Wait()
 	var total stats
 	for _, r := range results {
 		total.add(&r.st)
@@ -476,6 +517,9 @@ func run(c *core.Ctx) {
 		o.Distinct += r.nontrivial
 		if r.viol != nil {
 			c.Violate(r.viol.Key, r.viol.Desc, r.viol.Record)
+		}
+		for _, n := range r.notes {
+			c.Violate(n.Key, n.Desc, n.Record)
 		}
 	}
 	type jw struct {
